@@ -842,6 +842,33 @@ Definition m_exec_s (st : mstate) (s : sstmt) : mstate * bool :=
       end
     | None, _ => (st, false)
     end
+  | SOpMod x p f wrap y m =>
+    match nth_error rs x with
+    | None => (st, false)
+    | Some cur =>
+      match m_read h cur p with
+      | (h1, None) => (mkst h1 rs, false)
+      | (h1, Some old) =>
+        match nth_error rs y with
+        | None => (mkst (drop_val h1 old) rs, false)
+        | Some cy =>
+          let '(h2, cy', r) := m_lop m h1 cy in
+          let rs1 := set_root rs y cy' in
+          match r with
+          | None => (mkst (drop_val h2 old) rs1, false)
+          | Some res =>
+            let '(h3, w) := if wrap then let '(hh, l) := alloc h2 KList [(nokey, res)] in (hh, HRef l None)
+                            else (h2, res) in
+            match nth_error rs1 x with
+            | None => (mkst (drop2 h3 old w) rs1, false)
+            | Some cur1 =>
+              let '(h4, cur', ok) := m_opassign p f h3 cur1 old w in
+              (mkst h4 (set_root rs1 x cur'), ok)
+            end
+          end
+        end
+      end
+    end
   end.
 
 Fixpoint m_exec_list (st : mstate) (l : list sstmt) : mstate * bool :=
